@@ -123,7 +123,11 @@ func c07Request(rng *core.Rng, assets map[string]*refmodel.Asset) (string, int64
 		fallthrough
 	default:
 		if class == "subs-" && rng.Bool() && cfg.MPDType != "timeline" {
-			return prefix + fmt.Sprintf("/timestpp-en/%d.m4s", cfg.StartNr()+n), now, class + "media-gen-subs"
+			dir := "timestpp-en"
+			if strings.Contains(strings.Join(cfg.Extra, "/"), "timesubswvtt") {
+				dir = "timewvtt-en"
+			}
+			return prefix + fmt.Sprintf("/%s/%d.m4s", dir, cfg.StartNr()+n), now, class + "media-gen-subs"
 		}
 		tg, ok := modelTarget(a, cfg, rep.ID, n)
 		if !ok {
@@ -138,8 +142,14 @@ func c07Pages(rng *core.Rng) (string, int64, string) {
 }
 
 func c07CreateBody(rng *core.Rng, now int64) string {
-	url := core.Pick(rng, []string{"/livesim2/testpic_2s/Manifest.mpd", "/livesim2/segtimeline_1/testpic_2s/Manifest.mpd", "/livesim2/segtimelinenr_1/testpic_8s/Manifest.mpd"})
-	return fmt.Sprintf(`{"destRoot":"http://sim.invalid/upload","destName":"c07-%d","livesimURL":%q,"testNowMS":%d}`, rng.Intn(1000), url, now)
+	url := core.Pick(rng, []string{"/livesim2/testpic_2s/Manifest.mpd", "/livesim2/segtimeline_1/testpic_2s/Manifest.mpd", "/livesim2/segtimelinenr_1/testpic_8s/Manifest.mpd",
+		"/livesim2/timesubsstpp_en,sv/testpic_2s/Manifest.mpd", "/livesim2/segtimelinenr_1/timesubswvtt_en/testpic_2s/Manifest.mpd", "/livesim2/scte35_2/testpic_2s/Manifest.mpd",
+		"/livesim2/eccp_cenc/testpic_2s/Manifest.mpd"})
+	dur := ""
+	if rng.Chance(0.5) { // a session that ends by itself (last segment carries lmsg)
+		dur = fmt.Sprintf(`,"duration":%d`, rng.Range(2, 6))
+	}
+	return fmt.Sprintf(`{"destRoot":"http://sim.invalid/upload","destName":"c07-%d","livesimURL":%q,"testNowMS":%d%s}`, rng.Intn(1000), url, now, dur)
 }
 
 func (C07) Gen(rng *core.Rng, tier string, idx int) *core.Scenario {
@@ -183,6 +193,9 @@ func (C07) Gen(rng *core.Rng, tier string, idx int) *core.Scenario {
 			case r == 9:
 				sc.AddOp(c07Op{Op: "create", Body: c07CreateBody(rng, 1_700_000_000_000+rng.Int63n(1e9))})
 				nSess++
+				for k := rng.Intn(5); k > 0; k-- { // often stepped right away, possibly to its end
+					sc.AddOp(c07Op{Op: "step", Sess: nSess - 1})
+				}
 			case r == 10 && nSess > 0:
 				sc.AddOp(c07Op{Op: core.Pick(rng, []string{"step", "step", "info"}), Sess: rng.Intn(nSess)})
 			case nSess > 0:
@@ -403,6 +416,18 @@ func c07History(res *core.Result, ops []c07Op) {
 		rf := fresh.Get(tgt)
 		if msg := c07Same(rl, rf); msg != "" {
 			res.Violate("C07.fresh-instance-same-answer", merge(sig, core.Sig("kind", "long-running-vs-fresh")), "%s: long-running vs fresh instance: %s", tgt, msg)
+		}
+		// a server in another OS process that never ran a session: package-level state of this process
+		// (shared by "fresh" instances created here) cannot hide behind the in-process comparison
+		if g := hx.GuardGet(hx.BundledAssets, tgt); !g.Hung && !g.Died {
+			lo := hx.Observe(rl)
+			if g.Status != lo.Status || g.CT != lo.CT || g.Len != lo.Len || g.Sum != lo.Sum {
+				res.Violate("C07.other-process-same-answer", merge(sig, core.Sig("kind", "long-running-vs-other-process")),
+					"%s: long-running instance %d %s %d bytes %s, server in another process %d %s %d bytes %s", tgt, lo.Status, lo.CT, lo.Len, lo.Sum, g.Status, g.CT, g.Len, g.Sum)
+			}
+			res.Count("probe.compared-other-process")
+		} else {
+			panic("harness: guard child failed on a GET that the in-process server answered: " + g.Note)
 		}
 		rc := cached.Get(tgt)
 		if msg := c07Same(rl, rc); msg != "" {
